@@ -105,6 +105,7 @@ type shape struct {
 	files    []string
 	hand     string // a function the user has written by hand under the name its call already has ("" = none)
 	handFile string // the file that declares it (a.go sorts before derived.gen.go, main.go after it)
+	method   string // a METHOD of this name is declared on a type of the package ("" = none): it is not a function of that name
 }
 
 // the type choices: per chain the start key/elem/value types, per fmap step the result element type
@@ -475,6 +476,9 @@ func instantiate(sh shape, ch choice) version {
 		}
 		for _, blk := range extra[file] {
 			b.WriteString(blk)
+		}
+		if sh.method != "" && i == len(sh.files)-1 {
+			fmt.Fprintf(&b, "type Holder struct{}\n\n// %s is a method: the function of this name is still goderive's to generate.\nfunc (h *Holder) %s() {}\n\n", sh.method, sh.method)
 		}
 		v.Files[file] = b.String()
 		v.Calls = append(v.Calls, calls[file]...)
@@ -880,6 +884,14 @@ func (g *gen) scenario(id int) scenario {
 			sh.chains = append(sh.chains, g.requester(len(sh.chains), files[g.r.Intn(len(files))], w, &ch))
 		}
 	}
+	if g.r.Intn(100) < 20 && len(sh.chains) > 0 {
+		// a method that bears the name of one of the derive calls, in the old and in the new sources
+		c := sh.chains[g.r.Intn(len(sh.chains))]
+		if len(c.steps) > 0 {
+			sh.method = c.steps[g.r.Intn(len(c.steps))].name
+			g.feats["method-named-like-a-derive-call"] = true
+		}
+	}
 	if kind == "hand-written-added" {
 		// the old sources let goderive generate a function that the new sources declare by hand, under the same name
 		count := map[string]int{}
@@ -940,7 +952,7 @@ func (g *gen) scenario(id int) scenario {
 		o := rename(instantiate(sh, ch))
 		sc.Old = &o
 	case "extra":
-		osh := shape{files: files, chains: append([]chain{}, sh.chains...)}
+		osh := shape{files: files, chains: append([]chain{}, sh.chains...), method: sh.method}
 		och := ch.clone()
 		osh.chains = append(osh.chains, g.chain(len(sh.chains), files[g.r.Intn(len(files))], 1+g.r.Intn(3), &och, false))
 		if g.r.Intn(2) == 0 {
@@ -950,7 +962,7 @@ func (g *gen) scenario(id int) scenario {
 		o := instantiate(osh, och)
 		sc.Old = &o
 	case "missing":
-		osh := shape{files: files}
+		osh := shape{files: files, method: sh.method}
 		pairAt := -1
 		for i, c := range sh.chains {
 			if c.start == "pair" {
